@@ -608,7 +608,8 @@ _EXTRA3 = {
         'source\'s own constructors.',
  'C15': ' In a third of the healed runs the Byzantine validator re-signs every PRECOMMIT / COMMIT message of a correct leader under its own key and '
         'delivers the copy right behind the original; in another third it answers them with a message of the same phase whose certificate it signed '
-        'alone (a partial certificate of the same view and payload).',
+        'alone (a partial certificate of the same view and payload). Scripted: a round led by the Byzantine validator whose PRECOMMIT message names '
+        'build height 0 (COMMIT withheld), then up to eight rounds among the correct replicas with nothing lost: they must commit (and the control run too).',
  'C16': ' Also: the store rolled back to an earlier height and continued (proofs at the heights committed after the rollback).',
  'C17': ' Also: a recording of everything an honest peer sent in an earlier session played back to a new handshake of the same node (the answering side '
         'holds no key); an endpoint without identity key that sends the node\'s own identity proof and signed meta straight back (reflection; also a '
@@ -628,7 +629,7 @@ PROPS['C14']['modelled'] = PROPS['C14']['modelled'].replace('Not modelled: colle
     'AddDSE (collection with de-duplication of identical pieces: Evidence.collect). Not modelled: where the pieces come from (addDSEByPartialQC, ELECTION votes)')
 
 _NOTE3 = {
- 'C15': ' The healed-network simulation now has an ACTIVE Byzantine validator (re-signed leader messages, partial certificates) and a bound derived from the time debt of replicas left in different rounds; it has no Byzantine LEADER: the suspected defect O-19 (DESIGN.md 0.8.3: the lock takes its build height from the unsigned field of the PRECOMMIT message) is not exercised.',
+ 'C15': ' The healed-network simulation has an ACTIVE Byzantine validator (re-signed leader messages, partial certificates) and a bound derived from the time debt of replicas left in different rounds; a Byzantine LEADER appears in one scripted scenario only (the PRECOMMIT message naming another build height, then correct replicas alone).',
  'C09': ' A commit batch above about a megabyte rotates the log, which the crash enumeration does not follow (seeded5/C09 is not caught).',
 }
 for _k, _v in _NOTE3.items():
